@@ -157,7 +157,8 @@ def r1_globals(ck, P):
     use = _global_uses(P)
     ctors, co = ctor_only(P)
     if not ctors:
-        raise AnalysisBroken('no llvm.global_ctors entry found (constructor-time initialisation is the anchor of C16)')
+        # without a load-time constructor nothing is "constructor only": every writer of a mutable global can run on any thread
+        ck.note('no llvm.global_ctors entry: every store to a mutable global is judged as a run-time store')
     seen_tls = 0
     for u, g in P.all_globals():
         if g['const']:
@@ -297,3 +298,63 @@ def r3_drawing_no_mutation(ck, P):
                 ck.violation(R, f.name, 'image parameter %s' % f.params[i][0], 'drawing call %s may store into struct fields of its %s image: %s' % (f.name, f.params[i][0], why.get((f, i))), '%s:%d' % (f.file, f.line))
         else:
             ck.ok(R, f.name, 'image params %s untouched outside validate' % [f.params[i][0] for i in img_params])
+
+
+SOURCE_PARAM_NAMES = ('src', 'mask', 'src_image', 'mask_image', 'source')
+
+
+def reach_write_summaries(P, excluded):
+    """{function: {param index: reason}} — the function, or a callee outside `excluded`, may store to memory reached from the parameter
+    through field addresses and loads (the object itself, regions embedded in it, arrays it points to)"""
+    W = defaultdict(dict)
+
+    def arg_roots(f, o):
+        return {r[1] for r in common.roots(f, o) if r[0] == 'arg'}
+
+    fns = [f for f in P.functions() if f not in excluded]
+    for f in fns:
+        for x in f.insts():
+            if x.op == 'store':
+                for k in arg_roots(f, x.a[1]):
+                    if f.params[k][1].endswith('*'):
+                        W[f].setdefault(k, 'stores %s (%s)' % (f.pstr(f.path(x.a[1])), x.loc()))
+    changed = True
+    while changed:
+        changed = False
+        for f in fns:
+            for c in f.calls():
+                g = P.resolve(f, c.callee)
+                tg = [g] if g is not None else (common.indirect_targets(P, f, c) if c.callee is None else [])
+                if g is None and isinstance(c.callee, str) and c.callee.startswith(('llvm.memset', 'llvm.memcpy', 'llvm.memmove')):
+                    for i in arg_roots(f, c.a[0]):
+                        if i not in W[f] and f.params[i][1].endswith('*'):
+                            W[f][i] = '%s into it (%s)' % (c.callee.split('.')[1], c.loc()); changed = True
+                    continue
+                for g in tg:
+                    if g in excluded:
+                        continue
+                    for k, why in list(W.get(g, {}).items()):
+                        if k < len(c.a):
+                            for i in arg_roots(f, c.a[k]):
+                                if i not in W[f] and f.params[i][1].endswith('*'):
+                                    W[f][i] = 'passes memory reached from it to %s, which %s' % (g.name, why[:160]); changed = True
+    return W
+
+
+def r4_sources_untouched(ck, P):
+    R = ck.rule('C16-R4', 'no exported drawing entry point, outside the validate function, stores to memory reached from a source or mask image (the image struct, the clip region embedded in it, its pixel and region arrays)', floor=8)
+    V = common.validate_closure(P)
+    W = reach_write_summaries(P, V)
+    for name in DRAW_API:
+        f = P.fn(name, required=False)
+        if f is None:
+            continue
+        for i, (pn, pt) in enumerate(f.params):
+            if 'pixman_image' not in pt or pn not in SOURCE_PARAM_NAMES:
+                continue
+            ck.saw(f)
+            why = W.get(f, {}).get(i)
+            if why:
+                ck.violation(R, f.name, 'source image parameter %s' % pn, 'drawing call %s may store to memory reached from its %s image: %s' % (f.name, pn, why), '%s:%d' % (f.file, f.line))
+            else:
+                ck.ok(R, '%s(%s)' % (f.name, pn))
